@@ -40,7 +40,7 @@ def impl_oracle(c):
     op = c["op"]
     if op == "file":
         return J.file_oracle(c)
-    if op in ("script", "rstream", "rseries", "reuse", "targets", "lexfn"):
+    if op in ("script", "rstream", "rseries", "reuse", "targets", "lexfn", "bigfile"):
         return J.usage_oracle(c)
     if op in ("tojson", "unmarshal") and not o.get("ok") and c.get("want") and "E(" not in c["want"] \
             and c["stream"] in ("numlex", "words", "escapes", "big"):
@@ -122,7 +122,7 @@ def run(ck):
                                                        and not c.get("reject"))
         if c["op"] in ("tojson", "unmarshal") and o.get("ok"):
             accepted += 1
-        ck.count(c["stream"] + ":" + c["op"], key=(c["op"], c["in"], c.get("script")), trivial=trivial)
+        ck.count(c["stream"] + ":" + c["op"], key=(c["op"], c["in"], c.get("script"), c.get("cut")), trivial=trivial)
         bad = impl_oracle(c)
         if bad:
             key = "impl:%s:%s" % (bad[0], c["stream"])
@@ -176,7 +176,11 @@ def run(ck):
              "ReadSeriesFile) on documents with trailing content; objects of 13..40 members with repeated keys (the same "
              "key bare and quoted), in JSONx and in plain JSON: of a repeated key the occurrence that is last in the source (the "
              "one that wins) must be last in the emitted JSON, which must denote what encoding/json reads (a "
-             "re-ordering of distinct keys keeps the meaning and is not flagged). A case is trivial if its input is empty or it was rejected; distinct = distinct "
+             "re-ordering of distinct keys keeps the meaning and is not flagged). Files of l-1, l, l+1, 2l+1 bytes for "
+             "every integer l the source names and of 1 MiB-1, 1 MiB, 1 MiB+1 (3 MiB once) through ReadFile / "
+             "ReadFileMaybeJSON / ReadSeriesFile: a value, spaces or comment lines, a second value at the very end; a "
+             "number straddling byte l; a value followed by spaces only - the answer must be what Unmarshal / "
+             "DecodeSeries say about the bytes on disk. A case is trivial if its input is empty or it was rejected; distinct = distinct "
              "(operation, input bytes).",
         assumptions=["strconv.ParseFloat / json.Marshal(float64) satisfy the shortest-round-trip law",
                      "a Go string that is not valid UTF-8 denotes its U+FFFD-sanitised form"])
